@@ -66,3 +66,7 @@ pub mod path;
 pub mod types;
 
 pub use types::*;
+
+// verification hook (guard: cfg(kani), set only by `cargo kani`): harness module lives in /verif
+#[cfg(kani)]
+mod verif_kani;
